@@ -8,13 +8,14 @@ From LV Require Import Lib.Bytes Model.C18 Proofs.C18.
 Import ListNotations.
 Local Open Scope N_scope.
 
-(* ===== The two headline statements of the plan (DESIGN.md section 8), each for EVERY state s whose blob directory
-   holds regular files only; the finer-grained theorems follow. ===== *)
+(* ===== The two headline statements of the plan (DESIGN.md section 8), each for EVERY state s: no assumption on what
+   the blob directory holds (regular files, links to files, sub-directories, dangling links, junk names) or on the
+   table.  "file" = is_file: a regular file or a symbolic link to one.  The finer-grained theorems follow. ===== *)
 
 (* After a start: the directory is untouched; everything reported as completed has its file; every blob file
    present is 'finished'; every row that was 'finished' and has lost its file is 'pending'; every row that is
    'finished' now has its file. *)
-Theorem C18_setup_establishes : forall s, files_only (disk s) ->
+Theorem C18_setup_establishes : forall s,
   disk (restart s) = disk s /\
   (forall h, In h (completed (restart s)) -> valid_name h = true /\ is_file (disk (restart s)) h = true) /\
   (forall h, valid_name h = true -> is_file (disk (restart s)) h = true ->
@@ -27,7 +28,7 @@ Proof. exact restart_ok. Qed.
 Print Assumptions C18_setup_establishes.
 
 (* A further start with nothing changed reports exactly the blob files present and leaves the table alone. *)
-Theorem C18_setup_idempotent : forall s, files_only (disk s) ->
+Theorem C18_setup_idempotent : forall s,
   disk (restart (restart s)) = disk s /\
   (forall h, In h (completed (restart (restart s))) <-> valid_name h = true /\ is_file (disk s) h = true) /\
   (forall h, db_status (db (restart (restart s))) h = db_status (db (restart s)) h).
@@ -39,17 +40,16 @@ Theorem C18_setup_disk_unchanged : forall s, disk (restart s) = disk s.
 Proof. exact restart_disk. Qed.
 Print Assumptions C18_setup_disk_unchanged.
 
-(* Exactly which hashes are reported as completed after a start: the valid blob-hash names that have a
-   directory entry and a 'finished' row. *)
+(* Exactly which hashes are reported as completed after a start: the valid blob-hash names that are files and
+   had a 'finished' row. *)
 Theorem C18_completed_exact : forall s h,
   In h (completed (restart s)) <->
-  valid_name h = true /\ has_key (disk s) h = true /\ db_status (db s) h = Some Finished.
+  valid_name h = true /\ is_file (disk s) h = true /\ db_status (db s) h = Some Finished.
 Proof. exact restart_completed_In. Qed.
 Print Assumptions C18_completed_exact.
 
-(* Clause 1: every blob reported as completed has its file in the blob directory (the directory holds
-   regular files only: see C18_directory_entry_reported for what a planted sub-directory does). *)
-Theorem C18_completed_have_files : forall s h, files_only (disk s) ->
+(* Clause 1: every blob reported as completed has its file in the blob directory. *)
+Theorem C18_completed_have_files : forall s h,
   In h (completed (restart s)) -> valid_name h = true /\ is_file (disk (restart s)) h = true.
 Proof. exact completed_have_files. Qed.
 Print Assumptions C18_completed_have_files.
@@ -61,14 +61,14 @@ Theorem C18_files_finished : forall s h, valid_name h = true -> is_file (disk s)
 Proof. exact files_finished. Qed.
 Print Assumptions C18_files_finished.
 
-(* Clause 3: every 'finished' row whose file has disappeared is 'pending' afterwards, and conversely every
-   row that is 'finished' afterwards has its directory entry. *)
+(* Clause 3: every 'finished' row whose file has disappeared (nothing there, or only a directory or a dangling
+   link) is 'pending' afterwards, and conversely every row that is 'finished' afterwards has its file. *)
 Theorem C18_missing_downgraded : forall s h, db_status (db s) h = Some Finished ->
-  mem h (listed (disk s)) = false -> db_status (db (restart s)) h = Some Pending.
+  is_file (disk s) h = false -> db_status (db (restart s)) h = Some Pending.
 Proof. exact missing_downgraded. Qed.
 Print Assumptions C18_missing_downgraded.
 
-Theorem C18_finished_have_files : forall s h, files_only (disk s) ->
+Theorem C18_finished_have_files : forall s h,
   db_status (db (restart s)) h = Some Finished -> valid_name h = true /\ is_file (disk s) h = true.
 Proof. exact finished_have_files. Qed.
 Print Assumptions C18_finished_have_files.
@@ -77,7 +77,6 @@ Print Assumptions C18_finished_have_files.
 Theorem C18_setup_db_exact : forall s h,
   db_status (db (restart s)) h =
   if valid_name h && is_file (disk s) h then Some Finished
-  else if mem h (listed (disk s)) then db_status (db s) h
   else match db_status (db s) h with Some Finished => Some Pending | x => x end.
 Proof. exact restart_db_exact. Qed.
 Print Assumptions C18_setup_db_exact.
@@ -94,8 +93,8 @@ Print Assumptions C18_rows_not_deleted.
 
 (* Clause 4: a further restart with nothing changed reports exactly the blob files present, leaves the table
    as it is, and every later restart reports the same set. *)
-Theorem C18_second_restart_exact : forall s h, files_only (disk s) ->
-  (In h (completed (restart (restart s))) <-> valid_name h = true /\ is_file (disk s) h = true).
+Theorem C18_second_restart_exact : forall s h,
+  In h (completed (restart (restart s))) <-> valid_name h = true /\ is_file (disk s) h = true.
 Proof. exact second_restart_exact. Qed.
 Print Assumptions C18_second_restart_exact.
 
@@ -109,11 +108,11 @@ Theorem C18_restart_stable : forall s h,
 Proof. exact restart_stable. Qed.
 Print Assumptions C18_restart_stable.
 
-(* With sub-directories in the picture (outside the property's histories): the exact second report. *)
-Theorem C18_second_restart_general : forall s h,
-  In h (completed (restart (restart s))) <->
-  valid_name h = true /\ (is_file (disk s) h = true \/
-                          (is_dir (disk s) h = true /\ db_status (db s) h = Some Finished)).
+(* Whatever is not a (link to a) regular file -- nothing there, a sub-directory, a dangling symlink -- is not
+   'finished' after a start and is reported by no start, whatever the table said before. *)
+Theorem C18_second_restart_general : forall s h, is_file (disk s) h = false ->
+  db_status (db (restart s)) h <> Some Finished /\
+  ~ In h (completed (restart s)) /\ ~ In h (completed (restart (restart s))).
 Proof. exact second_restart_general. Qed.
 Print Assumptions C18_second_restart_general.
 
@@ -121,9 +120,10 @@ Print Assumptions C18_second_restart_general.
    external file creation/overwrite/removal, forced table rows, process deaths between a file write and its
    database write (whole or partial file, mid-publish with any k files written and j recorded) and restarts
    (with config.save_blobs switched on or off at will)
-   -- in any order and number, but with no directory planted under the blob directory -- a restart
-   establishes all clauses, and one more restart reports exactly the files present. *)
-Theorem C18_history : forall ops, forallb (fun o => negb (is_ext_dir o)) ops = true ->
+   symlinks to regular files (relocated blobs), dangling symlinks and sub-directories planted in the blob directory
+   -- in any order and number, no exclusion -- a restart establishes all clauses, and one more restart reports
+   exactly the files present. *)
+Theorem C18_history : forall ops,
   let s := run init ops in
   (disk (restart s) = disk s /\
    (forall h, In h (completed (restart s)) -> valid_name h = true /\ is_file (disk (restart s)) h = true) /\
@@ -156,13 +156,13 @@ Print Assumptions C18_start_establishes_files_recorded.
    announcer, SQLiteStorage.get_blobs_to_announce(), under BOTH settings of announce_head_and_sd_only, read right
    after a start: every announced hash has its file; with "announce everything" it is exactly the files present;
    the head/sd-only list is the marked (should_announce) part of it. *)
-Theorem C18_announced_have_files : forall head s h, files_only (disk s) ->
+Theorem C18_announced_have_files : forall head s h,
   In h (announce_list head (restart s)) -> valid_name h = true /\ is_file (disk (restart s)) h = true.
 Proof. exact announced_have_files. Qed.
 Print Assumptions C18_announced_have_files.
 
-Theorem C18_announce_all_exact : forall s h, files_only (disk s) ->
-  (In h (announce_list false (restart s)) <-> valid_name h = true /\ is_file (disk s) h = true).
+Theorem C18_announce_all_exact : forall s h,
+  In h (announce_list false (restart s)) <-> valid_name h = true /\ is_file (disk s) h = true.
 Proof. exact announce_all_exact. Qed.
 Print Assumptions C18_announce_all_exact.
 
@@ -170,6 +170,41 @@ Theorem C18_announce_head_subset : forall s h, In h (announce_list true s) ->
   In h (announce_list false s) /\ mem h (marked s) = true.
 Proof. exact announce_head_subset. Qed.
 Print Assumptions C18_announce_head_subset.
+
+(* ===== Daemon start = BlobManager.setup followed by StreamManager.initialize_from_database (model: daemon_start):
+   every managed stream whose sd blob is not verified is recovered -- the sd blob file is written again, the
+   stream's rows are deleted and re-inserted as 'pending' (storage.recover_streams), and THEN
+   ensure_completed_blobs_status marks those that have a file 'finished' -- and every stream's sd blob is loaded.
+   For every state s and every list L of streams (sd hash, sd length, content hashes) such that no DIRECTORY sits
+   under an sd name (a write into a directory fails while its completion callbacks still run): ===== *)
+Theorem C18_daemon_start_establishes : forall L s,
+  (forall st, In st L -> is_dir (disk s) (st_sd st) = false) ->
+  let t := daemon_start s L in
+  (forall h, In h (completed t) -> is_file (disk t) h = true) /\
+  (forall h, valid_name h = true -> is_file (disk t) h = true -> db_status (db t) h = Some Finished) /\
+  (forall h, db_status (db t) h = Some Finished -> is_file (disk t) h = true).
+Proof. exact daemon_start_ok. Qed.
+Print Assumptions C18_daemon_start_establishes.
+
+(* ... and a further start with nothing changed reports exactly the files present *)
+Theorem C18_daemon_start_then_restart_exact : forall s L h,
+  (forall st, In st L -> is_dir (disk s) (st_sd st) = false) ->
+  (In h (completed (restart (daemon_start s L))) <->
+   valid_name h = true /\ is_file (disk (daemon_start s L)) h = true).
+Proof. exact daemon_start_then_restart_exact. Qed.
+Print Assumptions C18_daemon_start_then_restart_exact.
+
+Theorem C18_daemon_start_announced_have_files : forall s L head h,
+  (forall st, In st L -> is_dir (disk s) (st_sd st) = false) ->
+  In h (announce_list head (daemon_start s L)) -> is_file (disk (daemon_start s L)) h = true.
+Proof. exact daemon_start_announced_have_files. Qed.
+Print Assumptions C18_daemon_start_announced_have_files.
+
+(* the daemon start only ever adds files (re-created sd blobs), it removes none *)
+Theorem C18_daemon_start_keeps_files : forall s L h,
+  is_file (disk s) h = true -> is_file (disk (daemon_start s L)) h = true.
+Proof. exact daemon_start_disk_grows. Qed.
+Print Assumptions C18_daemon_start_keeps_files.
 
 (* config.save_blobs (part of the state, chosen again at each restart) plays no part in what a start does; every
    theorem above quantifies over all states, hence over both settings. *)
@@ -225,11 +260,22 @@ Example C18_runtime_gap_between_restarts :
   (mem hA (completed s), is_file (disk s) hA, db_status (db s) hA, completed (restart s)) = (true, false, None, [hB]).
 Proof. vm_compute. reflexivity. Qed.
 
-(* Outside the property's histories: a DIRECTORY named like a blob hash is listed by os.scandir, so a 'finished'
-   row for it survives and it is reported as completed although no file exists (files_only is necessary). *)
-Example C18_directory_entry_reported :
+(* A DIRECTORY named like a blob hash is not listed by the scan (item.is_file()): a 'finished' row for it is
+   downgraded and it is not reported. *)
+Example C18_directory_entry_not_reported :
   let s := run init [OExtDir hA; OExtDb hA (Some Finished); ORestart] in
-  (completed s, is_file (disk s) hA, db_status (db s) hA) = ([hA], false, Some Finished).
+  (completed s, is_file (disk s) hA, db_status (db s) hA, announce_list false s) = ([], false, Some Pending, []).
+Proof. vm_compute. reflexivity. Qed.
+
+(* The scan BEFORE the repair (8ca445d) listed every blob-hash name: a relocated blob whose target was deleted (a
+   dangling link) kept its 'finished' row, was reported as completed and announced although no file exists --
+   the old start-up violates clauses 1 and 3 on this input; the repaired one does not. *)
+Example C18_old_scan_refuted :
+  let s := run init [OComplete hA 5; OExtRemove hA; OExtLink hA None] in
+  (is_file (disk s) hA,
+   db_status (db (restart_old s)) hA, completed (restart_old s), announce_list false (restart_old s),
+   db_status (db (restart s)) hA, completed (restart s), announce_list false (restart s))
+  = (false, Some Finished, [hA], [hA], Some Pending, [], []).
 Proof. vm_compute. reflexivity. Qed.
 
 (* the first start after a file appeared records it but does not yet report it (clause 4 needs the second) *)
@@ -264,4 +310,26 @@ Example C18_oversized_file_recorded :
   let s := run init [OExtFile hA 2097152; OExtFile hB 2097153; OExtFile hC 6291461; ORestart] in
   (db_status (db s) hA, db_status (db s) hB, db_status (db s) hC, length (completed (restart s)))
   = (Some Finished, Some Finished, Some Finished, 3%nat).
+Proof. vm_compute. reflexivity. Qed.
+
+(* a blob relocated to another volume and linked back IS a blob file present (EFile stands for a regular file or a
+   link to one): recorded by the next start, reported by the one after.  A DANGLING link is no file: never
+   recorded, and a 'finished' row for it is downgraded and not reported.  Re-downloading a blob whose name is a
+   dangling link writes through the link: the file exists again and is recorded. *)
+Example C18_symlinked_blob :
+  let s := run init [OExtLink hA (Some 1000); OExtLink hB None; OExtLink hC None; OExtDb hC (Some Finished); ORestart] in
+  let t := run s [OComplete hC 7] in
+  (is_file (disk s) hA, db_status (db s) hA, db_status (db s) hB, is_file (disk s) hC, db_status (db s) hC,
+   completed s, completed (restart s), is_file (disk t) hC, db_status (db t) hC)
+  = (true, Some Finished, None, false, Some Pending, [], [hA], true, Some Finished).
+Proof. vm_compute. reflexivity. Qed.
+
+(* a managed stream (content hA, sd hB of 7 bytes) whose sd blob file vanished: the daemon start re-creates the sd
+   blob file, and afterwards BOTH blob files are 'finished'; the next start reports both *)
+Example C18_daemon_start_recovers_stream :
+  let s := run init [OPublish [(hA, 5)] (hB, 7); OExtRemove hB] in
+  let t := daemon_start s [((hB, 7), [hA])] in
+  (is_file (disk s) hB, is_file (disk t) hB, db_status (db t) hA, db_status (db t) hB, completed t,
+   length (completed (restart t)), announce_list true t)
+  = (false, true, Some Finished, Some Finished, [hB; hA], 2%nat, [hB]).
 Proof. vm_compute. reflexivity. Qed.
